@@ -42,4 +42,91 @@ func init() {
 			"stored-view invariant: LeaderID==0 implies Term==0 (views start as {ShardID} and Term is only written with a leader); shown preserved by the step",
 		},
 	}
+	props["C12"] = &Property{
+		Title: "key encoding injective, order preserving, bookkeeping isolated",
+		Instances: func(tier string) []*Instance {
+			var r []*Instance
+			fsm := "storage/table/fsm"
+			lens := []int64{1, 2, 3, 4, 5, 6, 7, 8}
+			big := []int64{1019, 1020, 1024}
+			for _, n := range append(append([]int64{}, lens...), big...) {
+				r = append(r, &Instance{Pkg: fsm, Func: "VH_C12_roundtrip", Args: []int64{n}})
+			}
+			for _, a := range lens {
+				for _, b := range lens {
+					if tier == "quick" && (a > 4 || b > 4) && a != b && !(a == 8 || b == 8) {
+						continue
+					}
+					r = append(r, &Instance{Pkg: fsm, Func: "VH_C12_order", Args: []int64{a, b}})
+				}
+			}
+			for _, pr := range [][2]int64{{1024, 1024}, {1019, 1024}, {1020, 1019}, {1, 1024}, {1023, 1024}} {
+				r = append(r, &Instance{Pkg: fsm, Func: "VH_C12_order", Args: []int64{pr[0], pr[1]}})
+			}
+			bl := []int64{0, 1, 2, 3}
+			if tier == "thorough" {
+				bl = []int64{0, 1, 2, 3, 4}
+			}
+			for _, a := range bl {
+				for _, b := range bl {
+					for _, k := range bl[1:] {
+						r = append(r, &Instance{Pkg: fsm, Func: "VH_C12_bounds", Args: []int64{a, b, k}})
+					}
+				}
+			}
+			for _, tr := range [][3]int64{{1024, 1024, 1024}, {1, 1024, 1019}, {1019, 1, 1020}, {1020, 1020, 1}} {
+				r = append(r, &Instance{Pkg: fsm, Func: "VH_C12_bounds", Args: []int64{tr[0], tr[1], tr[2]}})
+			}
+			for _, n := range []int64{1, 2, 3, 8, 16} {
+				r = append(r, &Instance{Pkg: fsm, Func: "VH_C12_increment", Args: []int64{n}})
+			}
+			for _, n := range []int64{0, 1, 5, 1029} {
+				r = append(r, &Instance{Pkg: fsm, Func: "VH_C12_options", Args: []int64{n}})
+			}
+			r = append(r, &Instance{Pkg: fsm, Func: "VH_C12_vacuity", Args: []int64{3}, Expect: "violated"})
+			return r
+		},
+		Covers: map[string][]string{"VH_C12_roundtrip": {"end"}, "VH_C12_order": {"end"}, "VH_C12_bounds": {"end"}, "VH_C12_increment": {"end"}, "VH_C12_options": {"end"}},
+		Bounds: map[string]string{
+			"quick":    "key lengths: every length 1..8 (round trip, all pairs up to 4x4 plus diagonal and 8), plus 1019/1020/1023/1024-byte keys (API limit 1024) with all bytes symbolic; bound triples with lengths 0..3 and four maximum-length triples; no symbolic loop",
+			"thorough": "as quick with all 8x8 length pairs and bound triples 0..4",
+		},
+		Outside: "key lengths other than those enumerated (each enumerated length is decided for all 256^n contents); the unused stream Decoder (truncates at 1020 bytes; production uses DecodeBytes)",
+		Assumptions: []string{
+			"Pebble orders keys with the comparer configured in pebble.DefaultOptions (asserted to be the bytewise default with Split = whole key)",
+			"bytes.Compare/bytes.Equal are encoded as one lexicographic term (Go spec semantics), validated by native replay",
+		},
+	}
+	props["C06"] = &Property{
+		Title: "replication log stream is exact",
+		Instances: func(tier string) []*Instance {
+			var r []*Instance
+			lr := "storage/logreader"
+			ws := []int64{3, 4}
+			maxCache := int64(3)
+			if tier == "thorough" {
+				ws = []int64{3, 4, 5, 6}
+				maxCache = 4
+			}
+			for _, w := range ws {
+				for cs := int64(1); cs <= maxCache; cs++ {
+					for cl := int64(0); cl <= cs && cl <= w; cl++ {
+						r = append(r, &Instance{Pkg: lr, Func: "VH_C06_reader", Args: []int64{w, cs, cl}, Unwind: 16})
+					}
+				}
+			}
+			r = append(r, &Instance{Pkg: lr, Func: "VH_C06_reader_vacuity", Args: []int64{3}, Expect: "violated"})
+			return r
+		},
+		Covers: map[string][]string{"VH_C06_reader": {"end", "nonempty-range", "compacted"}},
+		Bounds: map[string]string{
+			"quick":    "log window (entries after the compaction marker) 3..4, cache size 1..3 holding a contiguous run of 0..size entries at every offset; marker, requested index and size limit full 64-bit symbolic; entry types symbolic; unwind 16 (window+cache+10)",
+			"thorough": "window 3..6, cache size 1..4",
+		},
+		Outside: "A6: the cache holds no compacted index (LogCompacted event processed before the query); entry payload sizes follow a fixed pattern (the size *limit* is symbolic so every cut position occurs); compaction racing with a query; entry compression",
+		Assumptions: []string{
+			"dragonboat ReadonlyLogReader contract as read from internal/logdb/logreader.go (model written in the harness, runs natively too)",
+			"the request range is [r, applied+1) with r <= applied+1, as LogServer.Replicate computes it",
+		},
+	}
 }
